@@ -15,6 +15,10 @@ Parts (DESIGN.md §2/C16):
                  post-selection, .when conditions, outcome-dependent parameters) on PF / P /
                  F with shots=None: equal outcome tuples with equal weights and
                  position-permuted branch states.
+  full_tuple     direct relation for ALL d modes listed in a non-ascending order on PF / F / P:
+                 reduced(order), get_marginal_fock_probabilities(order) and the shots=None
+                 outcome tuples of a measurement on Q(*order) equal the probability table
+                 re-keyed in the listed order (added after the seeded change C16_a).
   commute        every adjacent pair of instructions with disjoint supports is exchanged:
                  gates on G / P / fermionic G always, on PF / F / fermionic PF when the
                  representation is exact for them (number-conserving, or the full fermionic
@@ -105,7 +109,7 @@ ASSUMPTIONS = [
 # of 2562 budgeted evaluations, 0.15-0.20 / 0.13-0.24 / 0.24-0.28 on a heavily loaded machine
 # (the wall-clock budgets then cut the parts unevenly, hence the wide margin)
 FLOORS = {"perm_moves_multimode": 0.08, "swap_with_multimode": 0.05,
-          "permuted_multimode_tuple": 0.03}
+          "permuted_multimode_tuple": 0.03, "full_tuple_nonascending_asymmetric": 0.015}
 
 TOL = 1e-9
 NC = NumpyConnector()
@@ -395,7 +399,7 @@ def _compare_states(sim, a, b, perm, tag, marg=None, linear_only=False):
         if sim != "G":  # G: the full table is cut at the cutoff, the marginal is not
             cmp_maps({k: v for k, v in ma.items()}, ref,
                      f"{B}:marginal-vs-table", f"marginal on {tuple(marg)} vs summed table")
-        if sim in ("PF", "F") and len(marg) < d:
+        if sim in ("PF", "F"):  # also for a full-length (permuted) tuple
             try:
                 ra = np.asarray(a.reduced(tuple(marg)).density_matrix)
                 rb = np.asarray(b.reduced(mb_modes).density_matrix)
@@ -495,7 +499,8 @@ def relabel_case(draw):
     desc = draw(bosonic_program(sim))
     d = desc["d"]
     perm = list(draw(st.permutations(list(range(d)))))
-    marg = draw(progs.ordered_modes(d, draw(st.integers(1, d))))
+    k = d if draw(st.integers(0, 2)) == 0 else draw(st.integers(1, d))
+    marg = draw(progs.ordered_modes(d, k))
     return {"sim": sim, "desc": desc, "perm": perm, "marg": marg}
 
 
@@ -511,6 +516,9 @@ def prop_relabel(case, ctx):
         cl.append("nonascending_modes")
     if any(g["g"] not in CONSERVING for g in desc["gates"]) and sim in ("PF", "F"):
         cl.append("relabel_truncating_gate")
+    if len(marg) == desc["d"] and (list(marg) != sorted(marg)
+                                   or [perm[m] for m in marg] != sorted(marg)):
+        cl.append("full_tuple_nonascending")
     ctx.case(case, moved and not point_mass(a), cl)
     compare_states(sim, a, b, perm, "relabel", marg, linear_only=linear_only(desc["gates"]))
 
@@ -702,6 +710,15 @@ def prop_relabel_meas(case, ctx):
     if any(s["k"] == "postselect" for s in steps):
         cl.append("postselect")
     nb = len(ra.branches)
+    act = list(range(desc["d"]))
+    for st_ in steps:
+        if st_["k"] == "measure" and len(st_["modes"]) >= 2 and set(st_["modes"]) == set(act) and (
+                list(st_["modes"]) != sorted(st_["modes"])
+                or [perm[m] for m in st_["modes"]] != sorted(perm[m] for m in st_["modes"])):
+            cl.append("full_tuple_nonascending")
+            break
+        if st_["k"] in ("measure", "postselect"):
+            act = [m for m in act if m not in st_["modes"]]
     ctx.case(case, moved and nmeas >= 1 and nb >= 2, cl)
     rest = remaining_modes(normalise_adaptive(desc))
     rho = position_perm(rest, perm)
@@ -748,6 +765,74 @@ def prop_pps(case, ctx):
         bad = max(abs(base.get(k, 0.0) - other.get(k, 0.0)) for k in keys)
         if bad > TOL:
             raise Violation(B_PPS, f"{what}: weights {base} differ from {name} {other}")
+
+
+# ------------------------------------------------------------------------------ full_tuple
+
+@st.composite
+def full_tuple_case(draw):
+    sim = draw(st.sampled_from(["PF", "PF", "F", "F", "P"]))
+    desc = draw(bosonic_program(sim, max_gates=5))
+    desc["gates"] = [g for g in desc["gates"] if g["g"] != "Attenuator"]
+    d = desc["d"]
+    order = list(draw(st.permutations(list(range(d)))))
+    if order == sorted(order):
+        order = order[::-1]
+    return {"sim": sim, "desc": desc, "order": order}
+
+
+def prop_full_tuple(case, ctx):
+    """Direct relation: ALL d modes listed in a non-ascending order.  reduced(order),
+    get_marginal_fock_probabilities(order) and the shots=None outcome tuples of a
+    measurement on Q(*order) must be the probability table re-keyed in the listed order."""
+    sim, desc, order = case["sim"], case["desc"], case["order"]
+    B = f"C16:full_tuple:{sim}"
+    a = run_desc(desc, sim, "full_tuple")
+    try:
+        pa = real_map(a.fock_probabilities_map)
+    except Exception as e:
+        raise Violation(f"{B}:observable-raises:{type(e).__name__}", str(e)[:300])
+    exp = {}
+    for k, v in pa.items():
+        kk = tuple(k[m] for m in order)
+        exp[kk] = exp.get(kk, 0.0) + v
+    asym = max(abs(exp.get(k, 0.0) - v) for k, v in pa.items()) > 1e-6
+    ctx.case(case, asym, [f"full_tuple_{sim}"] + (
+        ["full_tuple_nonascending_asymmetric"] if asym else []))
+    what = f"all modes in the order {tuple(order)}"
+    try:
+        marg = real_map(a.get_marginal_fock_probabilities(tuple(order)))
+    except NotImplementedCalculation:
+        marg = None  # passive state with several input occupation numbers (documented)
+    except Exception as e:
+        raise Violation(f"{B}:marginal:raises:{type(e).__name__}", str(e)[:300])
+    if marg is not None:
+        cmp_maps(exp, marg, f"{B}:get_marginal_fock_probabilities",
+                 f"get_marginal_fock_probabilities on {what} vs the re-keyed table")
+    if sim in ("PF", "F"):
+        try:
+            red = real_map(a.reduced(tuple(order)).fock_probabilities_map)
+        except Exception as e:
+            raise Violation(f"{B}:reduced:raises:{type(e).__name__}", str(e)[:300])
+        cmp_maps(exp, red, f"{B}:reduced", f"reduced() to {what} vs the re-keyed table")
+    # measurement of Q(*order): outcome tuples follow the listed order
+    adesc = {"sim": sim, "d": desc["d"], "cutoff": desc["cutoff"], "hbar": desc["hbar"],
+             "prep": desc["prep"],
+             "steps": [{"k": "gate", **g} for g in desc["gates"]] + [
+                 {"k": "measure", "m": "ParticleNumberMeasurement", "modes": list(order), "p": {}}]}
+    res = run_adaptive_guarded(adesc, "full_tuple")
+    if res is UNSUPPORTED:
+        ctx.count("documented_unsupported")
+        return
+    w = {k: v[0] for k, v in branch_table(res).items()}
+    # documented (sample_from_probability_map): with shots=None the branches are "filtered
+    # to non-zero probabilities" by np.isclose(p, 0), i.e. outcomes with p <= 1e-8 are absent
+    for k, v in exp.items():
+        if k not in w and v <= 1e-8 + TOL:
+            w[k] = v
+    cmp_maps(exp, w, f"{B}:outcome-weights",
+             f"shots=None weights of a measurement of {what} vs the re-keyed table")
+    ctx.count("full_tuple_measured")
 
 
 # ------------------------------------------------------------------------------ commute
@@ -1357,6 +1442,9 @@ def parts(tier):
         Part("relabel_meas", prop_relabel_meas, strategy=relabel_meas_case(),
              examples={"quick": 480, "thorough": 8000},
              budget_s={"quick": 25, "thorough": 1200}),
+        Part("full_tuple", prop_full_tuple, strategy=full_tuple_case(),
+             examples={"quick": 240, "thorough": 4000},
+             budget_s={"quick": 15, "thorough": 600}),
         Part("commute", prop_commute, strategy=commute_case(),
              examples={"quick": 320, "thorough": 6000},
              budget_s={"quick": 20, "thorough": 1200}),
